@@ -495,6 +495,41 @@ fn set_population_scenarios(r: &mut Report, seed: u64) {
     }
 }
 
+/// child maker over populations of zero-sized individuals that always fails (and counts its applications)
+struct FailingUnitMaker { calls: Arc<std::sync::atomic::AtomicUsize> }
+impl Composable for FailingUnitMaker {}
+impl<'a> Operator<&'a Vec<()>> for FailingUnitMaker {
+    type Output = ();
+    type Error = ProbeErr;
+    fn apply<R: Rng + ?Sized>(&self, _pop: &'a Vec<()>, _rng: &mut R) -> Result<(), ProbeErr> {
+        Err(ProbeErr(self.calls.fetch_add(1, Ordering::SeqCst)))
+    }
+}
+
+/// Populations of astronomic size (zero-sized individuals cost nothing): a step whose first child fails returns that
+/// error and leaves the population as it was - serially and under every pool size; no arithmetic on the size may
+/// overflow on the way.  Model-free.
+fn astronomic_populations(r: &mut Report) {
+    for n in [usize::MAX, usize::MAX - 1, usize::MAX - 17, usize::MAX / 2 + 3] {
+        for mode in 0..=6usize {
+            let calls = Arc::new(std::sync::atomic::AtomicUsize::new(0));
+            let mut gen = Generation::new(FailingUnitMaker { calls: calls.clone() }, vec![(); n]);
+            let res = std::panic::catch_unwind(std::panic::AssertUnwindSafe(|| if mode == 0 { gen.serial_next() } else { pools()[mode - 1].1.install(|| gen.par_next()) }));
+            r.case(&format!("astronomic population {n} mode {mode}"), true);
+            r.hit("population of astronomic size, failing child maker");
+            let bad = match res {
+                Err(_) => Some("panicked".to_string()),
+                Ok(Ok(())) => Some("succeeded although every child fails".to_string()),
+                Ok(Err(_)) => if gen.population().len() != n { Some(format!("population size changed to {}", gen.population().len())) } else { None },
+            };
+            if let Some(b) = bad {
+                r.violate(json!({"case": format!("generation step over {n} zero-sized individuals, child maker always fails, {}", if mode == 0 { "serial".to_string() } else { format!("rayon pool #{mode}") }), "real": b,
+                    "what": ["a failing step must return the child maker's error and leave the population as it was"]}));
+            }
+        }
+    }
+}
+
 fn clip(s: &str) -> String { if s.len() > 400 { format!("{}…({} chars)", &s[..400], s.len()) } else { s.to_string() } }
 
 pub fn run(cfg: &Cfg) -> Report {
@@ -512,7 +547,7 @@ pub fn run(cfg: &Cfg) -> Report {
         let c = gen_case(&mut g, thorough, i, n_exh, &exh);
         run_case(d, r, &c, &mut g, i);
     });
-    if mutant().is_empty() { set_population_scenarios(&mut rep, seed); }
+    if mutant().is_empty() { set_population_scenarios(&mut rep, seed); astronomic_populations(&mut rep); }
     if !mutant().is_empty() { rep.notes.push(format!("SELF-TEST: real Generation replaced by mutant `{}`", mutant())); }
     rep.exhaustive = true;
     rep.notes.push(format!("exhaustive scope: population sizes 0..=16 x every failing call position 0..n (and none) x (serial, rayon pools of 1,2,3,4,8,16 threads) x {reps} repeats = {n_exh} cases; seeded random: {n_rand} cases of 1-3 consecutive steps"));
